@@ -650,7 +650,22 @@ def optimize(*args, traverse=True, **kwargs):
         # rebuilt arguments (iterators as lists), not the exhausted originals
         return repack([]) if traverse else args
 
-    from dask._expr import CompositeExpr, _ExprSequence
+    from dask._collections import new_collection
+    from dask._expr import CompositeExpr, Expr, _ExprSequence
+
+    # Collections that *are* expressions (dataframes, array expressions) are optimized
+    # as expressions: their postpersist protocol is written for ``persist`` (it takes
+    # a mapping of exactly the output keys and cannot pick them out of a merged
+    # graph), and their un-lowered expressions cannot be materialized at all.
+    native = {
+        id(a): new_collection(a.expr.optimize())
+        for a in collections
+        if isinstance(getattr(a, "expr", None), Expr)
+    }
+    all_collections = collections
+    collections = [a for a in all_collections if id(a) not in native]
+    if not collections:
+        return repack([native[id(a)] for a in all_collections])
 
     dsk = collections_to_expr(collections)
     collection_exprs = list(dsk.operands) if isinstance(dsk, _ExprSequence) else [dsk]
@@ -681,7 +696,10 @@ def optimize(*args, traverse=True, **kwargs):
             r, s = a.__dask_postpersist__()
             postpersists.append(r(graph, *s))
 
-    return repack(postpersists)
+    rebuilt = iter(postpersists)
+    return repack(
+        [native[id(a)] if id(a) in native else next(rebuilt) for a in all_collections]
+    )
 
 
 def compute(
